@@ -118,15 +118,15 @@ struct pair_int_double { int first; double second; };
 def read_fn(kind, contract=True):
     vt, name, inst = KINDS[kind]
     if kind == 'double':
-        return Fn(HPP, r'inline NLW2_SOLReadResultCode Read\(\s*FILE\* f, int binary, double& v, std::string& err\)',
+        return Fn(HPP, r'inline NLW2_SOLReadResultCode Read\(\s*FILE\* f, int binary, double\s*&?\s*v, std::string\s*&?\s*err\)',
                   'NLW2_SOLReadResultCode Read_double(FILE *f, int binary, double *v_p, char *err)',
-                  contract=READ_CONTRACT if contract else '', subst=ERR_SUBST, defines={'v': '(*v_p)'},
+                  contract=READ_CONTRACT if contract else '', subst=ERR_SUBST, refs={'v': 'v_p'},
                   label='mp::Read(FILE*,int,double&,std::string&)', nmatches=1)
     El = 'int' if kind == 'pair_int' else 'double'
-    return Fn(HPP, r'inline NLW2_SOLReadResultCode Read\(\s*FILE\* f, int binary,\s*std::pair<int, El>& v, std::string& err\)',
+    return Fn(HPP, r'inline NLW2_SOLReadResultCode Read\(\s*FILE\* f, int binary,\s*std::pair<int, El>\s*&?\s*v, std::string\s*&?\s*err\)',
               'NLW2_SOLReadResultCode %s(FILE *f, int binary, %s *v_p, char *err)' % (name, vt),
               contract=READ_CONTRACT if contract else '', subst=ERR_SUBST,
-              defines={'v': '(*v_p)', 'El': El, 'VP_IS_INTEGER_El': '1' if El == 'int' else '0',
+              refs={'v': 'v_p'}, defines={'El': El, 'VP_IS_INTEGER_El': '1' if El == 'int' else '0',
                        'VP_MIN_El': 'INT_MIN' if El == 'int' else 'DBL_MIN', 'VP_MAX_El': 'INT_MAX' if El == 'int' else 'DBL_MAX'},
               label='mp::Read(FILE*,int,std::pair<int,El>&,std::string&)', inst='El=%s' % El, nmatches=1)
 
@@ -255,11 +255,11 @@ def checkreader_fn(contract=True):
          '__CPROVER_ensures(__CPROVER_return_value == (rd->rr_ == NLW2_SOLRead_OK && rd->n_ == 0)) '
          '__CPROVER_ensures(!__CPROVER_return_value ==> *rr_p != NLW2_SOLRead_OK) '
          '__CPROVER_assigns(*rr_p, readresult_, g_serror_calls)')
-    return Fn(H, r'bool CheckReader\(const Reader& rd, NLW2_SOLReadResultCode& rr\)',
+    return Fn(H, r'bool CheckReader\(const Reader\s*&?\s*rd, NLW2_SOLReadResultCode\s*&?\s*rr\)',
               'bool CheckReader(const VecReader *rd, NLW2_SOLReadResultCode *rr_p)', contract=c if contract else '',
               subst=[(r'rd\.ReadResult\(\)', 'rd->rr_', 4), (r'rd\.Size\(\)', 'rd->n_', 1),
                      (r'rd\.ErrorMessage\(\)\.c_str\(\)', 'rd->err_msg_', 1), (r'rd\.ErrorMessage\(\)', 'rd->err_msg_', 1)],
-              defines={'rr': '(*rr_p)'}, label='mp::SOLReader2::CheckReader', nmatches=1)
+              refs={'rr': 'rr_p'}, label='mp::SOLReader2::CheckReader', nmatches=1)
 
 
 def h_checkreader():
